@@ -27,5 +27,6 @@ def run(rep, tier, seed):
     from contracts import bincompletion as BC
     D.run_contracts(rep, "C03", [("contracts.bincompletion", "bin_completion")] + BC.HELPERS, tier)
     D.run_static(rep, "C03", ("purity",))      # every per-call contract presupposes that results are functions of the arguments
+    D.run_contracts(rep, "C03", D.relational(), tier, only_tagged=True)      # the same postconditions at bounded shape on the real manager classes: concrete, replayable counter-models
     t3(rep, tier, seed)
     D.link_falsifier(rep)
